@@ -105,6 +105,9 @@ void bundle_t::delete_largest(const tensor_size_t count)
         m_size = remove_if([&, thres = m_alphas(count) - epsilon0<scalar_t>()](const tensor_size_t i)
                            { return m_bundleE(i) > thres; });
 
+        // NB: make sure there is room left for both the aggregation and the new element!
+        m_size = std::min(m_size, capacity() - 3);
+
         append_aggregate();
     }
 }
